@@ -758,6 +758,119 @@ static void run_rhumb(Ctx& ctx, bool T) {
   }
 }
 
+// ================================================================= order-complete line / direct / inverse consistency (E2)
+// Operation histories on a FRESH solver object (and a line obtained from it at the start of the history): all sequences
+// of up to `depth` operations from an alphabet {line queries, direct, inverse; with and without the area}.  Differential
+// oracle: the outputs of the last operation of every history are BIT-identical to the same operation executed alone on a
+// fresh solver (so no operation depends on what was asked of the solver or of the line before -- e.g. lazily built
+// tables); and every line query agrees with the direct solution from the start point within the usual tolerance in
+// every order.
+#include <functional>
+#include <memory>
+template <class W> struct OOp { std::string name; std::function<Out(W&)> f; int direct; };      // direct: index of the op a line query must agree with, or -1
+static bool out_same(const Out& a, const Out& b) {
+  auto eq = [](double x, double y) { return mc::same_bits(x, y) || (std::isnan(x) && std::isnan(y)); };
+  if (!eq(a.ret, b.ret)) return false;
+  for (int i = 0; i < NS; ++i) if (!eq(a.v[i], b.v[i])) return false;
+  return true;
+}
+template <class W, class MK>
+static void order_complete(Ctx& ctx, const std::string& title, const std::vector<OOp<W>>& ops, int depth, MK make, const mc::Fields& F0, double a, double f) {
+  const int n = (int)ops.size();
+  std::vector<Out> ref(n);
+  for (int i = 0; i < n; ++i) { auto w = make(); ref[i] = ops[i].f(*w); }
+  uint64_t hist = 0;
+  for (int len = 1; len <= depth; ++len) {
+    std::vector<int> idx(len, 0);
+    while (true) {
+      Ctx::Case cse(ctx); ++hist;
+      auto w = make();
+      Out o;
+      for (int k = 0; k < len; ++k) o = ops[idx[k]].f(*w);
+      const int last = idx[len - 1];
+      std::string hn; for (int k = 0; k < len; ++k) hn += (k ? " ; " : "") + ops[idx[k]].name;
+      std::string key = title + " order [" + hn + "]";
+      if (!out_same(o, ref[last])) {
+        mc::Fields F = F0; F.push_back({"kind", "order-dependence"}); F.push_back({"op", ops[last].name}); F.push_back({"history_length", fmti(len)});
+        ctx.fail(key, "outputs of the last operation (" + outs(o) + ") differ from the same operation alone on a fresh solver object (" + outs(ref[last]) + ")", F);
+      }
+      if (ops[last].direct >= 0) {
+        const Out& d = ref[ops[last].direct];
+        Scale sc = scales(a, f, d);
+        mc::Fields F = F0; F.push_back({"op", ops[last].name}); F.push_back({"history_length", fmti(len)});
+        // the line query writes a subset of what the direct call writes: judge the written ones
+        judge(ctx, key + " vs " + ops[ops[last].direct].name, F, "order_line_vs_direct", SLOTN, o, d, sc, [&](int i) { return !o.untouched(i); }, false, false);
+      }
+      int k = len - 1; while (k >= 0 && ++idx[k] == n) { idx[k] = 0; --k; }
+      if (k < 0) break;
+    }
+  }
+  ctx.count("order_histories", hist);
+}
+
+template <class S> static void run_orders(Ctx& ctx, bool T) {
+  typedef typename S::G G; typedef typename S::L L;
+  const std::string sn = S::name();
+  const int depth = T ? 3 : 2;
+  ctx.sub("order-complete/" + sn);
+  for (int gi = 0; gi < NGEO; ++gi) {
+    const Geo& q = GEOS[gi];
+    if (!T && !q.quick) continue;
+    if (!ctx.take()) continue;
+    // arguments: distance / arc of the 35 deg position, and the inverse problem to that point (computed on a scratch solver)
+    double s, lat2, lon2;
+    { G g0 = S::make(q.a, q.f); Out r = gendirect(g0, q, true, ARCS[0], G::ALL); s = r.v[3]; lat2 = r.v[0]; lon2 = r.v[1]; }
+    struct W { std::unique_ptr<G> g; std::unique_ptr<L> l; };
+    typedef OOp<W> O;
+    std::vector<O> ops;
+    // 0,1: direct (the references of the line queries)
+    ops.push_back({"GenDirect(s12,ALL)", [=](W& w) { return gendirect(*w.g, q, false, s, G::ALL); }, -1});
+    ops.push_back({"GenDirect(a12,ALL)", [=](W& w) { return gendirect(*w.g, q, true, ARCS[0], G::ALL); }, -1});
+    ops.push_back({"line.GenPosition(s12,ALL)", [=](W& w) { return genpos(*w.l, false, s, G::ALL); }, 0});
+    ops.push_back({"line.GenPosition(a12,ALL)", [=](W& w) { return genpos(*w.l, true, ARCS[0], G::ALL); }, 1});
+    ops.push_back({"line.GenPosition(s12,AREA)", [=](W& w) { return genpos(*w.l, false, s, G::AREA); }, 0});
+    ops.push_back({"line.GenPosition(s12,LATITUDE|LONGITUDE)", [=](W& w) { return genpos(*w.l, false, s, G::LATITUDE | G::LONGITUDE); }, 0});
+    ops.push_back({"Line(ALL).GenPosition(s12,ALL)", [=](W& w) { L l2 = w.g->Line(q.lat1, q.lon1, q.azi1, G::ALL); return genpos(l2, false, s, G::ALL); }, 0});
+    ops.push_back({"GenDirect(s12,LATITUDE|LONGITUDE)", [=](W& w) { return gendirect(*w.g, q, false, s, G::LATITUDE | G::LONGITUDE); }, 0});
+    ops.push_back({"GenInverse(ALL)", [=](W& w) { Out o; o.ret = w.g->GenInverse(q.lat1, q.lon1, lat2, lon2, G::ALL, o.v[3], o.v[0], o.v[2], o.v[4], o.v[5], o.v[6], o.v[7]); return o; }, -1});
+    ops.push_back({"GenInverse(DISTANCE)", [=](W& w) { Out o; o.ret = w.g->GenInverse(q.lat1, q.lon1, lat2, lon2, G::DISTANCE, o.v[3], o.v[0], o.v[2], o.v[4], o.v[5], o.v[6], o.v[7]); return o; }, -1});
+    order_complete<W>(ctx, sn + " " + q.name, ops, depth,
+                      [&]() { std::unique_ptr<W> w(new W); w->g.reset(new G(S::make(q.a, q.f))); w->l.reset(new L(w->g->Line(q.lat1, q.lon1, q.azi1, G::ALL))); return w; },
+                      {{"solver", sn}, {"geodesic", q.name}}, q.a, q.f);
+  }
+}
+
+static void run_rhumb_orders(Ctx& ctx, bool T) {
+  struct RE { double a, f; bool exact, quick; };
+  const RE res[] = {{WA, WF, false, true}, {WA, WF, true, true}, {WA, 0.1, true, false}, {WA, -1 / 150.0, false, false}, {WA, -0.1, true, false}, {WA, 0, true, false}};
+  const int depth = T ? 3 : 2;
+  ctx.bound("order-complete", "all sequences of up to " + fmti(depth) + " operations on a fresh solver object (+ a line obtained from it) from {direct with/without area (distance and arc), 4 line queries incl. a newly made line, inverse with/without area}; geodesic solvers x geodesics, Rhumb series/exact x courses");
+  ctx.sub("order-complete/Rhumb");
+  for (const RE& re : res) for (int ci = 0; ci < NCOURSE; ++ci) {
+    const Course& c = COURSES[ci];
+    if (!T && !(re.quick && c.quick)) continue;
+    if (!ctx.take()) continue;
+    struct W { std::unique_ptr<Rhumb> r; std::unique_ptr<RhumbLine> l; };
+    typedef OOp<W> O;
+    std::vector<O> ops;
+    auto D = [=](W& w, unsigned m) { Out o; w.r->GenDirect(c.lat1, c.lon1, c.azi12, c.s12, m, o.v[0], o.v[1], o.v[7]); return o; };
+    auto P = [=](const RhumbLine& l, unsigned m) { Out o; l.GenPosition(c.s12, m, o.v[0], o.v[1], o.v[7]); return o; };
+    ops.push_back({"GenDirect(ALL)", [=](W& w) { return D(w, Rhumb::ALL); }, -1});
+    ops.push_back({"line.GenPosition(ALL)", [=](W& w) { return P(*w.l, Rhumb::ALL); }, 0});
+    ops.push_back({"line.GenPosition(AREA)", [=](W& w) { return P(*w.l, Rhumb::AREA); }, 0});
+    ops.push_back({"line.GenPosition(LATITUDE|LONGITUDE)", [=](W& w) { return P(*w.l, Rhumb::LATITUDE | Rhumb::LONGITUDE); }, 0});
+    ops.push_back({"line.Position(lat2,lon2,S12)", [=](W& w) { Out o; w.l->Position(c.s12, o.v[0], o.v[1], o.v[7]); return o; }, 0});
+    ops.push_back({"Line().GenPosition(ALL)", [=](W& w) { RhumbLine l2 = w.r->Line(c.lat1, c.lon1, c.azi12); return P(l2, Rhumb::ALL); }, 0});
+    ops.push_back({"GenDirect(LATITUDE|LONGITUDE)", [=](W& w) { return D(w, Rhumb::LATITUDE | Rhumb::LONGITUDE); }, 0});
+    ops.push_back({"GenInverse(ALL)", [=](W& w) { Out o; w.r->GenInverse(c.lat1, c.lon1, c.lat2, c.lon2, Rhumb::ALL, o.v[3], o.v[2], o.v[7]); return o; }, -1});
+    ops.push_back({"GenInverse(DISTANCE|AZIMUTH)", [=](W& w) { Out o; w.r->GenInverse(c.lat1, c.lon1, c.lat2, c.lon2, Rhumb::DISTANCE | Rhumb::AZIMUTH, o.v[3], o.v[2], o.v[7]); return o; }, -1});
+    std::string title = std::string("Rhumb(") + fmt(re.a) + "," + fmt(re.f) + "," + (re.exact ? "exact" : "series") + ") " + c.name;
+    order_complete<W>(ctx, title, ops, depth,
+                      [&]() { std::unique_ptr<W> w(new W); w->r.reset(new Rhumb(re.a, re.f, re.exact)); w->l.reset(new RhumbLine(w->r->Line(c.lat1, c.lon1, c.azi12))); return w; },
+                      {{"solver", re.exact ? "Rhumb(exact)" : "Rhumb(series)"}, {"course", c.name}}, re.a, re.f);
+  }
+}
+
 
 int main(int argc, char** argv) {
   Ctx ctx(argc, argv);
@@ -773,5 +886,9 @@ int main(int argc, char** argv) {
   run_solver<ExactT>(ctx, T);
   run_solver<SeriesExactT>(ctx, T);
   run_rhumb(ctx, T);
+  run_orders<SeriesT>(ctx, T);
+  run_orders<ExactT>(ctx, T);
+  run_orders<SeriesExactT>(ctx, T);
+  run_rhumb_orders(ctx, T);
   return ctx.finish();
 }
